@@ -1,3 +1,55 @@
 // harnesses for crate::decode (child module: sees private items)
 #![allow(dead_code, unused_imports)]
 use super::*;
+use crate::verif_k::bits::BitBuf;
+use crate::verif_k::spec;
+use crate::verif_k::specenc::{self, PKind};
+use crate::verif_k::tape::{Tape, K_S, K_U, K_UN1};
+use crate::verif_k::{vk_assert, vk_undecided};
+use PKind::{Escape, Rice, Zero};
+
+fn any_i64_within(bits: u32) -> i64 {
+    let v: i64 = kani::any();
+    kani::assume(spec::fits(v, bits));
+    v
+}
+
+// ------------------------------------------------------------------ read_residuals (valid streams)
+//
+// contract (RFC 9639 §9.2.7):
+//   requires  the stream is the RFC coding (method, partition order, per-partition kind and
+//             parameter) of residuals r[0..n] that are valid 32-bit residuals
+//   ensures   Ok(()), residuals == r, exactly the coding's fields consumed, field grammar as RFC
+macro_rules! k_read_residuals_valid {
+    ($name:ident, $t:ty, $n:expr, $order:expr, $method:expr, $po:expr, [$($kind:expr),*], $unw:expr) => {
+        #[kani::proof]
+        #[kani::unwind($unw)]
+        pub(crate) fn $name() {
+            let kinds = [$($kind),*];
+            let mut params = [0u32; 8];
+            let mut i = 0;
+            while i < kinds.len() { params[i] = kani::any(); kani::assume(params[i] <= 31); i += 1; }
+            let mut r = [0i64; $n];
+            let mut i = 0;
+            while i < $n { r[i] = any_i64_within(32); i += 1; }
+            kani::assume(specenc::residuals_valid($method, $po, $order, &r, &kinds, &params));
+            let mut tape: Tape<24> = Tape::new();
+            specenc::gen_residuals(&mut tape, $method, $po, $order, &r, &kinds, &params);
+            let mut out: [$t; $n] = kani::any();
+            let res = read_residuals::<_, $t>(&mut tape, $order, &mut out);
+            vk_assert!(!tape.shape_mismatch, "read_residuals: field grammar differs from RFC 9639 9.2.7");
+            vk_assert!(res.is_ok(), "read_residuals rejected a valid residual coding");
+            let mut i = 0;
+            while i < $n {
+                vk_assert!(i64::from(out[i]) == r[i], "read_residuals: decoded residual differs from the coded value");
+                i += 1;
+            }
+            vk_assert!(tape.consumed_all(), "read_residuals did not consume exactly the residual coding");
+            kani::cover!(res.is_ok(), "valid coding decoded");
+        }
+    };
+}
+k_read_residuals_valid!(k_res_valid_i32_n4_o0_m0_p1_RR, i32, 4, 0, 0, 1, [Rice, Rice], 6);
+k_read_residuals_valid!(k_res_valid_i32_n4_o0_m1_p2_RERZ, i32, 4, 0, 1, 2, [Rice, Escape, Rice, Zero], 6);
+k_read_residuals_valid!(k_res_valid_i32_n3_o1_m0_p1_ER, i32, 3, 1, 0, 1, [Escape, Rice], 6);
+k_read_residuals_valid!(k_res_valid_i32_n3_o2_m1_p0_R, i32, 3, 2, 1, 0, [Rice], 6);
